@@ -110,6 +110,12 @@ def run(ctx):
         plan = {"code": 4, "bcs": i % 2 == 0, "ccs": i % 3 == 0, "seed": 1000 + i, "blocks": blocks}
         cases.append({"id": len(cases) + 1, "chunks": [], "plan": plan,
                       "cfg": {"conc": [1, 4][i % 2], "mode": "read", "bufs": [rnd.choice([1, 7, 4096, 70000])], "extra": 1}})
+    # the stored size of a block equals the number of bytes decoded before it (12 literals, then 3 literals + 12-byte match +
+    # 5 literals = 12 stored bytes): a size word is never the legacy "total size" trailer in a frame of the current format
+    for blocks in ([{"size": 12, "kind": "lits"}, {"size": 20, "kind": "m1"}], [{"size": 6, "kind": "raw"}, {"size": 6, "kind": "lits"}, {"size": 20, "kind": "m1"}, {"size": 30, "kind": "mprev"}]):
+        for conc, mode in ((1, "read"), (1, "writeto"), (4, "read")):
+            cases.append({"id": len(cases) + 1, "chunks": [], "plan": {"code": 4, "bcs": False, "ccs": conc == 1, "seed": 4242, "blocks": blocks},
+                          "cfg": {"conc": conc, "mode": mode, "bufs": [7], "extra": 1}})
     recs, faults = fl.shard_run(b, "frame-read", cases, d, "r", extra=("--watchdog", "120s"))
     if faults:
         raise vlib.MachineryFault("frame-read failed: %s" % faults[0]["stderr"][-800:])
